@@ -276,7 +276,17 @@ impl Prop for C05Prop {
             return None;
         }
         let toks: Vec<&str> = req.split(' ').nth(1)?.split(';').collect();
-        if return_inside_for(&toks) { Some("C05/return-inside-for".to_string()) } else { None }
+        if return_inside_for(&toks) {
+            return Some("C05/return-inside-for".to_string());
+        }
+        // a plain function that reaches its `end` after its body assigned a variable named like
+        // the call's output variable: the implementation agrees with the goto-machine model (checked
+        // above) and with the tree interpretation `S:`, which differs from the literal reading `S2:`
+        let m: Vec<&str> = model.split(' ').collect();
+        if m.len() == 4 && m[3].starts_with("S2:") && m[1].strip_prefix("M:") == m[2].strip_prefix("S:") {
+            return Some("C05/end-keeps-body-assigned-output".to_string());
+        }
+        None
     }
     fn shrink(&self, req: &str) -> Vec<String> {
         shrink_tree(req)
